@@ -2661,8 +2661,9 @@ impl Compiler {
             mutable: true, // Enums are mutable like objects
         });
 
-        // Track the current numeric value for auto-increment
-        let mut current_value: i64 = 0;
+        // Track the current numeric value for auto-increment; `None` once a member's value is only
+        // known at run time (`A = 1 << 2, B`): the next member is then numbered from the register
+        let mut current_value: Option<f64> = Some(0.0);
         let value_reg = self.builder.alloc_register()?;
         let key_reg = self.builder.alloc_register()?;
 
@@ -2677,18 +2678,22 @@ impl Compiler {
                 // Compile the initializer expression, rewriting references to prior enum members
                 self.compile_enum_init_expression(init, value_reg, enum_obj, &prior_members)?;
 
-                // Try to compute the numeric value for auto-increment
-                // This is a simplified version - in reality, we'd need const evaluation
-                if let crate::ast::Expression::Literal(lit) = init
-                    && let crate::ast::LiteralValue::Number(n) = &lit.value
-                {
-                    current_value = *n as i64 + 1;
-                }
-            } else {
+                // The numeric value for auto-increment, where it is known at compile time
+                current_value = Self::enum_numeric_literal(init).map(|n| n + 1.0);
+            } else if let Some(value) = current_value {
                 // Use auto-increment value (as a number: it may not fit LoadInt's i32)
-                self.builder
-                    .emit_load_number(value_reg, current_value as f64)?;
-                current_value += 1;
+                self.builder.emit_load_number(value_reg, value)?;
+                current_value = Some(value + 1.0);
+            } else {
+                // The previous member was computed at run time and is still in value_reg
+                let one = self.builder.alloc_register()?;
+                self.builder.emit_load_number(one, 1.0)?;
+                self.builder.emit(Op::Add {
+                    dst: value_reg,
+                    left: value_reg,
+                    right: one,
+                });
+                self.builder.free_register(one);
             }
 
             // Add this member to prior members for subsequent initializers
@@ -2702,29 +2707,42 @@ impl Compiler {
             });
 
             // Set reverse mapping for numeric values: EnumName[value] = MemberName
-            // Only for numeric values (not string enums)
-            // We need to check if value is numeric at runtime for mixed enums
-            let is_numeric = match &member.initializer {
+            // Not for string members. A computed member (`A = 1 << 2`, `B = A * 2`) is mapped
+            // back when its value turns out to be a number.
+            let known_number = match &member.initializer {
                 None => true,
-                Some(init) => {
-                    // Check for numeric literal
-                    matches!(
-                        init,
-                        crate::ast::Expression::Literal(lit) if matches!(lit.as_ref(), crate::ast::Literal { value: crate::ast::LiteralValue::Number(_), .. })
-                    ) ||
-                    // Check for unary minus of numeric literal (e.g., -10)
-                    matches!(
-                        init,
-                        crate::ast::Expression::Unary(unary)
-                            if unary.operator == crate::ast::UnaryOp::Minus
-                            && matches!(
-                                unary.argument.as_ref(),
-                                crate::ast::Expression::Literal(lit) if matches!(lit.as_ref(), crate::ast::Literal { value: crate::ast::LiteralValue::Number(_), .. })
-                            )
-                    )
-                }
+                Some(init) => Self::enum_numeric_literal(init).is_some(),
             };
-            if is_numeric {
+            let known_string = match &member.initializer {
+                Some(crate::ast::Expression::Literal(lit)) => {
+                    matches!(lit.value, crate::ast::LiteralValue::String(_))
+                }
+                Some(crate::ast::Expression::Template(_)) => true,
+                _ => false,
+            };
+            if !known_string {
+                let skip = if known_number {
+                    None
+                } else {
+                    let type_reg = self.builder.alloc_register()?;
+                    let number_reg = self.builder.alloc_register()?;
+                    self.builder.emit(Op::Typeof {
+                        dst: type_reg,
+                        src: value_reg,
+                    });
+                    self.builder
+                        .emit_load_string(number_reg, JsString::from("number"))?;
+                    self.builder.emit(Op::StrictEq {
+                        dst: type_reg,
+                        left: type_reg,
+                        right: number_reg,
+                    });
+                    let skip = self.builder.emit_jump_if_false(type_reg);
+                    self.builder.free_register(number_reg);
+                    self.builder.free_register(type_reg);
+                    Some(skip)
+                };
+
                 // Load the member name as a string value
                 self.builder.emit_load_string(key_reg, member_name)?;
 
@@ -2734,6 +2752,9 @@ impl Compiler {
                     key: value_reg,
                     value: key_reg,
                 });
+                if let Some(skip) = skip {
+                    self.builder.patch_jump(skip);
+                }
             }
         }
 
@@ -2741,6 +2762,27 @@ impl Compiler {
         self.builder.free_register(value_reg);
         self.builder.free_register(enum_obj);
         Ok(())
+    }
+
+    /// The value of an enum initializer that is a numeric literal or a negated one (`5`, `-10`)
+    fn enum_numeric_literal(init: &crate::ast::Expression) -> Option<f64> {
+        use crate::ast::{Expression, LiteralValue, UnaryOp};
+        match init {
+            Expression::Literal(lit) => match lit.value {
+                LiteralValue::Number(n) => Some(n),
+                _ => None,
+            },
+            Expression::Unary(unary) if unary.operator == UnaryOp::Minus => {
+                match unary.argument.as_ref() {
+                    Expression::Literal(lit) => match lit.value {
+                        LiteralValue::Number(n) => Some(-n),
+                        _ => None,
+                    },
+                    _ => None,
+                }
+            }
+            _ => None,
+        }
     }
 
     /// Compile a namespace declaration
